@@ -168,6 +168,20 @@ int main() {
     while (tok.stack.size()) tok.pop();
     free(b);
   }
+  /* getRawString finds the end pattern and stops right after it */
+  {
+    const char *in[][2] = {{"\"(a)\"", "a"}, {"\"d(a)d\"", "a"}, {"\"d(a)d\" x", "a"}, {"\"(a)x)\"", "a)x"}, {"\"dd(a)d)dd\"y", "a)d"}};
+    for (auto &c : in) {
+      std::string s = c[0]; char *b = heap(s); const char *end = b + s.size(); size_t pos = 0;
+      current_case = "buffer " + show(s) + " (getRawString, expected value " + show(c[1]) + ")";
+      RESET(); std::string value; FN("tokenizer_t::getRawString"); tok.getRawString(value);
+      CHECK(value == c[1], "tokenizer_t::getRawString: finds the end pattern )delim\"");
+      size_t consumed = 1 + (strchr(c[0] + 1, '(') - (c[0] + 1)) + 1 + strlen(c[1]) + 1 + (strchr(c[0] + 1, '(') - (c[0] + 1)) + 1;
+      CHECK(tok.fp.start == b + consumed, "tokenizer_t::getRawString: the cursor stops right after the end pattern");
+      while (tok.stack.size()) tok.pop();
+      free(b);
+    }
+  }
   printf(bad ? "REPRODUCED (%d failing cases)\n" : "not reproduced\n", bad);
   return bad ? 1 : 0;
 }
@@ -246,14 +260,14 @@ int main() {
 '''
 
 
-def _run(ctx, g, key, prog, sources):
+def _run(ctx, g, key, prog, sources, args=()):
     if key in _cache:
         return _cache[key]
     extra = [os.path.join(REPO, s) for s in sources]
     try:
         rc, out, src = replaylib.compile_run(
             ctx, 'replay_' + key, prog, extra_sources=extra,
-            flags=['-fsanitize=address', '-fno-omit-frame-pointer'], timeout=300)
+            flags=['-fsanitize=address', '-fno-omit-frame-pointer'], args=list(args), timeout=300)
     except Exception as e:      # build problems never hide the violation
         _cache[key] = {'error': repr(e)[:600]}
         return _cache[key]
@@ -320,27 +334,31 @@ SCANSTEP_PROG = COMMON + r"""
 #include <occa/internal/lang/token.hpp>
 using namespace occa;
 using namespace occa::lang;
-int main() {
+/* unterminated literals / headers at the end of the buffer, scanned in place (tokenizer_t(const char *root)) */
+int main(int argc, char **argv) {
   signal(SIGALRM, on_alarm); alarm(120);
-  /* unterminated literals / headers at the end of the buffer, scanned in place (tokenizer_t(const char *root)) */
-  const char *inputs[] = {"\"abc", "x = \"abc", "R\"abc", "u8R\"d(abc", "'a", "L'", "\"", "'", "R\"", "\"a\\", "'\\"};
+  std::string site = argc > 1 ? argv[1] : "";
+  std::vector<const char*> inputs;
+  if (site == "getString") inputs = {"\"abc", "x = \"abc", "\"", "\"a\\"};
+  if (site == "getRawString") inputs = {"R\"abc", "R\"", "u8R\"d"};
+  if (site == "getCharToken") inputs = {"'a", "L'", "'", "'\\"};
+  if (site == "getHeader") inputs = {"<abc", "<"};
   for (const char *s : inputs) {
     char *b = heap(s);
-    current_case = std::string("tokenizing ") + show(s) + " in a buffer of exactly " + std::to_string(strlen(s) + 1) + " bytes";
+    current_case = std::string(site == "getHeader" ? "getHeader() on " : "tokenizing ") + show(s) + " in a buffer of exactly " + std::to_string(strlen(s) + 1) + " bytes";
     printf("%s\n", current_case.c_str()); fflush(stdout);
     tokenizer_t tok(b);
-    int n = 0; token_t *t;
-    while ((t = tok.getToken()) != NULL && n < 100) ++n;
-    CHECK(b <= tok.fp.start && tok.fp.start <= b + strlen(s), "tokenizer_t::getToken: cursor stays inside the buffer");
-  }
-  {
-    const char *s = "<abc";
-    char *b = heap(s);
-    current_case = std::string("getHeader on ") + show(s);
-    printf("%s\n", current_case.c_str()); fflush(stdout);
-    tokenizer_t tok(b);
-    std::string h = tok.getHeader();
-    CHECK(b <= tok.fp.start && tok.fp.start <= b + strlen(s), "tokenizer_t::getHeader: cursor stays inside the buffer");
+    if (site == "getHeader") {
+      FN("tokenizer_t::getHeader");
+      std::string h = tok.getHeader();
+      /* the cursor is past the end already; the next read is what AddressSanitizer sees */
+      CHECK(b <= tok.fp.start && tok.fp.start <= b + strlen(s), "tokenizer_t::getHeader: cursor stays inside the buffer");
+    } else {
+      FN("tokenizer_t::getToken");
+      int n = 0; token_t *t;
+      while ((t = tok.getToken()) != NULL && n < 100) ++n;
+      CHECK(b <= tok.fp.start && tok.fp.start <= b + strlen(s), "tokenizer_t::getToken: cursor stays inside the buffer");
+    }
   }
   printf(bad ? "REPRODUCED (%d failing cases)\n" : "not reproduced\n", bad);
   return bad ? 1 : 0;
@@ -349,8 +367,8 @@ int main() {
 
 
 def replay_scanstep(ctx, g, o, inputs):
-    r = _run(ctx, g, 'scanstep', SCANSTEP_PROG, ['src/occa/internal/lang/tokenizer.cpp'])
-    v = _verdict(r, o, 'real src/occa/internal/lang/tokenizer.cpp under AddressSanitizer, unterminated string / raw string / '
-                 'character literals and an unterminated <header at the end of an exactly-sized heap buffer, tokenized in '
-                 'place through the public tokenizer_t(const char*) / getToken() / getHeader()', [])
-    return v
+    site = g.name.split('/')[-1]
+    r = _run(ctx, g, 'scanstep_' + site, SCANSTEP_PROG, ['src/occa/internal/lang/tokenizer.cpp'], args=[site])
+    return _verdict(r, o, 'real src/occa/internal/lang/tokenizer.cpp under AddressSanitizer: unterminated literal / <header of the '
+                    'kind ' + site + ' handles, at the end of an exactly-sized heap buffer, tokenized in place through the public '
+                    'tokenizer_t(const char*) / getToken() / getHeader()', [])
